@@ -3,7 +3,9 @@ from .common import fams, generic_replay, PATTERNS
 
 
 def run(tier):
-    return scans.scan_check("C17", ("ADM.",), {"ADM"}, fams({'ADM'}, only=['Noh'], extra=('EHEP','EPpiston','Mader')), tier, require_patterns=PATTERNS)
+    f = fams({'ADM'}, only=['Noh'], extra=('EHEP','EPpiston','Mader'))
+    f["SuOlson"] = ("suolson", {"SUOL", "FIN"})        # 0 <= v <= u <= 1, monotone in x and t
+    return scans.scan_check("C17", ("ADM.", "SUOL.v", "SUOL.u<=1", "SUOL.mono"), {"ADM"}, f, tier, require_patterns=PATTERNS)
 
 
 def replay(path):
